@@ -59,6 +59,8 @@ type Backend struct {
 	Ledgers  map[string]*Ledger // existing ledgers
 	MkWrites func(name string) Writes
 	R        Reads
+	// AnyLedger: a ledger of any name exists
+	AnyLedger bool
 }
 
 func New(existing ...string) *Backend {
@@ -102,6 +104,12 @@ func (b *Backend) WriteCalls() []Call {
 func (b *Backend) GetLedgerEngine(ctx context.Context, name string) (backend.Ledger, error) {
 	b.mu.Lock()
 	l, ok := b.Ledgers[name]
+	if !ok && b.AnyLedger {
+		// every ledger name exists (names are not validated anywhere and the v1 API creates ledgers on first use)
+		l = &Ledger{Name: name, B: b}
+		b.Ledgers[name] = l
+		ok = true
+	}
 	b.mu.Unlock()
 	if !ok {
 		return nil, sqlutils.ErrNotFound
